@@ -271,6 +271,88 @@ fn iter_items_case<D0: crate::Distance>(d: usize, item_ids: &[u32], side: &str) 
     verdict
 }
 
+fn query_entry_case<D0: crate::Distance>(d: usize, vector_len: Option<usize>) -> Vec<String> {
+    let mut verdict = vec![];
+    let dir = tempfile::tempdir().unwrap();
+    let env = unsafe { EnvOpenOptions::new().map_size(200 * 1024 * 1024).open(dir.path()) }.unwrap();
+    let mut wtxn = env.write_txn().unwrap();
+    let db: Database<D0> = env.create_database(&mut wtxn, None).unwrap();
+    let vec_of = |n: usize| -> Vec<f32> { (0..d).map(|j| if (j + n) % 3 == 0 { 1.0 + n as f32 } else { -1.0 - j as f32 }).collect() };
+    for nb in [6u16, 8u16] {
+        let wn = Writer::<D0>::new(db, nb, d);
+        wn.add_item(&mut wtxn, 2, &vec_of(7)).unwrap();
+        wn.add_item(&mut wtxn, 0, &vec_of(8)).unwrap();
+        let mut rng = StdRng::seed_from_u64(1);
+        wn.builder(&mut rng).n_trees(1).build(&mut wtxn).unwrap();
+    }
+    let w = Writer::<D0>::new(db, 7, d);
+    let stored = [1u32, 3, 4, 5, 6, u32::MAX];
+    for (n, i) in stored.iter().enumerate() {
+        w.add_item(&mut wtxn, *i, &vec_of(n)).unwrap();
+    }
+    let mut rng = StdRng::seed_from_u64(0);
+    w.builder(&mut rng).n_trees(2).split_after(2).build(&mut wtxn).unwrap();
+    let reader = Reader::<D0>::open(&wtxn, 7, db).unwrap();
+    let big = NonZeroUsize::new(1_000_000).unwrap();
+    for missing in [0u32, 2u32] {
+        let mut q = reader.nns(3);
+        q.search_k(big);
+        match q.by_item(&wtxn, missing) {
+            Ok(None) => {}
+            Ok(Some(r)) => verdict.push(format!("by_item({missing}) answers {r:?} for an id that is not stored in this index")),
+            Err(e) => verdict.push(format!("by_item({missing}) fails for an id that is not stored: {e}")),
+        }
+    }
+    for (n, i) in stored.iter().enumerate() {
+        for budget in [1usize, 2, 1_000_000] {
+            let mut q = reader.nns(3);
+            q.search_k(NonZeroUsize::new(budget).unwrap());
+            let a = q.by_item(&wtxn, *i);
+            let b = q.by_vector(&wtxn, &vec_of(n));
+            match (a, b) {
+                (Ok(Some(a)), Ok(b)) => {
+                    if a != b {
+                        verdict.push(format!("by_item({i}) = {a:?} differs from by_vector(its vector) = {b:?} (search_k {budget})"));
+                    }
+                }
+                (a, b) => verdict.push(format!("by_item({i}) / by_vector fail on a stored item: {:?} / {:?}", a.map(|_| ()), b.map(|_| ()))),
+            }
+        }
+    }
+    let lens: Vec<usize> = match vector_len { Some(l) => vec![l], None => vec![0, d - 1, d + 1, 2 * d] };
+    for l in lens {
+        let v = vec![0.5f32; l];
+        let q = reader.nns(3);
+        match q.by_vector(&wtxn, &v) {
+            Ok(_) if l == d => {}
+            Ok(_) => verdict.push(format!("by_vector accepts a vector of length {l} on an index of dimension {d}")),
+            Err(crate::Error::InvalidVecDimension { expected, received }) if l != d => {
+                if expected != d || received != l {
+                    verdict.push(format!("the dimension error says expected {expected} received {received}, should be {d} / {l}"));
+                }
+            }
+            Err(e) => verdict.push(format!("by_vector with length {l} (dimension {d}) fails with: {e}")),
+        }
+    }
+    if reader.is_empty(&wtxn).unwrap() || w.is_empty(&wtxn).unwrap() {
+        verdict.push("is_empty answers true for an index that holds items".into());
+    }
+    let w9 = Writer::<D0>::new(db, 7 + 0, d);
+    for i in stored {
+        w9.del_item(&mut wtxn, i).unwrap();
+    }
+    if !w9.is_empty(&wtxn).unwrap() {
+        verdict.push("Writer::is_empty answers false for an index without items (the neighbouring indexes have items)".into());
+    }
+    let mut rng = StdRng::seed_from_u64(0);
+    w9.builder(&mut rng).n_trees(1).build(&mut wtxn).unwrap();
+    let r2 = Reader::<D0>::open(&wtxn, 7, db).unwrap();
+    if !r2.is_empty(&wtxn).unwrap() {
+        verdict.push("Reader::is_empty answers false for an index without items (the neighbouring indexes have items)".into());
+    }
+    verdict
+}
+
 #[test]
 fn verif_replay() {
     let path = std::env::var("VERIF_SCENARIO").expect("VERIF_SCENARIO");
@@ -522,6 +604,18 @@ fn run_one(text: &str) {
                 let r = match kv(&tok, "metric").unwrap() {
                     "euclidean" => iter_items_case::<Euclidean>(d, &item_ids, side),
                     "bq_euclidean" => iter_items_case::<Bqe>(d, &item_ids, side),
+                    _ => panic!("unsupported metric"),
+                };
+                verdict.extend(r);
+            }
+            "query_entry" => {
+                // metric=.. dim=N [vector_len=L] : by_item / by_vector / is_empty against their contracts
+                let d: usize = kv(&tok, "dim").unwrap().parse().unwrap();
+                let vl: Option<usize> = kv(&tok, "vector_len").map(|s| s.parse().unwrap());
+                use crate::distance::BinaryQuantizedEuclidean as Bqe;
+                let r = match kv(&tok, "metric").unwrap() {
+                    "euclidean" => query_entry_case::<Euclidean>(d, vl),
+                    "bq_euclidean" => query_entry_case::<Bqe>(d, vl),
                     _ => panic!("unsupported metric"),
                 };
                 verdict.extend(r);
